@@ -14,6 +14,11 @@ import (
 	"gosym/term"
 )
 
+// traceCap bounds the per-path event trace kept for violation reports.
+var traceCap = 60
+
+func SetTraceCap(n int) { traceCap = n }
+
 type fnInfo struct {
 	index map[ssa.Value]int
 	n     int
@@ -132,8 +137,8 @@ func newPathState() *pathState {
 }
 
 func (e *Engine) tracef(format string, a ...interface{}) {
-	if len(e.p.trace) > 60 {
-		e.p.trace = e.p.trace[20:]
+	if len(e.p.trace) > traceCap {
+		e.p.trace = e.p.trace[traceCap/3:]
 	}
 	e.p.trace = append(e.p.trace, fmt.Sprintf(format, a...))
 }
@@ -326,6 +331,13 @@ func (e *Engine) globalObj(g *ssa.Global) *Object {
 		o := e.allocGlobal(g)
 		o.Persistent = true
 		e.persistGlobals[g] = o
+		if pkg != nil && pkg.Pkg.Path() == "net" && g.Name() == "ErrClosed" {
+			// package net's initialiser is not run; give the sentinel error its identity
+			saved := e.inPersistentInit
+			e.inPersistentInit = true
+			o.Cells[0] = e.mkError("use of closed network connection")
+			e.inPersistentInit = saved
+		}
 		if pkg != nil && pkg.Pkg.Path() == "os" && g.Name() == "Args" {
 			ao := &Object{ID: -1, Cells: []Value{e.constString("prog")}, Name: "os.Args", Persistent: true}
 			o.Cells[0] = Slice{Obj: ao, Off: e.c64(0), Len: e.c64(1), Cap: e.c64(1)}
